@@ -24,6 +24,10 @@ FIXTURE = {
     "other.py": (
         "class Circle:\n    def __init__(self, r=1):\n        self.r = r + 100\n    def __repr__(self):\n        return 'other.Circle(%r)' % (self.r,)\n"
         "class Thing:\n    def __init__(self, v=0):\n        self.v = v\n    def __repr__(self):\n        return 'Thing(%r)' % (self.v,)\n"),
+    # user modules whose names merely start with the names of the two run-time modules
+    "typings.py": "class Payload:\n    def __init__(self, v=0):\n        self.v = v\n    def __repr__(self):\n        return 'Payload(%r)' % (self.v,)\n",
+    "typing_helpers.py": "class Helper:\n    def __init__(self, v=0):\n        self.v = v\n    def __repr__(self):\n        return 'Helper(%r)' % (self.v,)\n",
+    "mypy_extensions_compat.py": "class Compat:\n    def __init__(self, v=0):\n        self.v = v\n    def __repr__(self):\n        return 'Compat(%r)' % (self.v,)\n",
 }
 
 
@@ -56,7 +60,7 @@ IMPORT_POOL = [
     ("import os, shapes", "os.sep + str(shapes.area(shapes.Square(2)))", "tm"),
     ("from typing import List", "List is not None", "tm"),
     ("from typing import Dict as D, Optional", "D is not None and Optional is not None", "tm"),
-    ("from typing import TYPE_CHECKING", "TYPE_CHECKING", "tm"),
+    ("from typing import TYPE_CHECKING", "TYPE_CHECKING", "tmffy"),
     ("import typing", "typing.TYPE_CHECKING", "tm"),
     ("from typing import *", "Optional is not None", "tm"),
     ("from other import Circle", "Circle(4).r", "tmfc"),
@@ -64,6 +68,11 @@ IMPORT_POOL = [
     ("from other import Thing as Circle", "Circle(1).v", "tf"),
     ("import other", "other.Thing(2).v", "tmf"),
     ("from mypy_extensions import TypedDict", "TypedDict is not None", "tm"),
+    ("import typings", "typings.Payload(1).v", "tmf"),
+    ("from typings import Payload", "Payload(2).v", "tmfc"),
+    ("from typing_helpers import Helper as H", "H(3).v", "tm"),
+    ("import typing_helpers", "typing_helpers.Helper(4).v", "tm"),
+    ("from mypy_extensions_compat import Compat", "Compat(5).v", "tmf"),
 ]
 
 # functions the stub annotates: name -> (source text, argument types, return type, call in run())
@@ -89,6 +98,14 @@ def func_pool(fx):
         "both": ("def both(a, b):\n    return a.r + b.x\n",
                  {"a": fx["shapes"].Circle, "b": fx["geo.pts"].Point}, int,
                  "both(_mk('shapes', 'Circle', 1), _mk('geo.pts', 'Point', 2, 3))"),
+        "payload": ("def payload(p):\n    return p.v\n",
+                    {"p": fx["typings"].Payload}, int, "payload(_mk('typings', 'Payload', 3))"),
+        "helper": ("def helper(h, n=0):\n    return h\n",
+                   {"h": fx["typing_helpers"].Helper, "n": int}, fx["typing_helpers"].Helper,
+                   "helper(_mk('typing_helpers', 'Helper', 5))"),
+        "compat": ("def compat(xs):\n    return len(xs)\n",
+                   {"xs": List[fx["mypy_extensions_compat"].Compat]}, int,
+                   "compat([_mk('mypy_extensions_compat', 'Compat', 1)])"),
         "annotated": ("def annotated(n: int) -> int:\n    return n + 1\n", {"n": int}, int, "annotated(1)"),
     }
 
